@@ -1,4 +1,6 @@
 import VrpProofs.C11.WF
+import VrpProofs.C11.Init
+import VrpProofs.C11.Csv
 import VrpModel.Generated.C11Schema
 set_option linter.unusedSimpArgs false
 set_option linter.unusedVariables false
@@ -6,8 +8,12 @@ set_option linter.unusedVariables false
 /-!
 # C11 — problem / matrix / solution documents survive round trips
 
-Part 1 (this section): `ser(parse(ser d)) = ser d` for every document of the generated schema
-`C11.Generated.defs` (translator T1 regenerates it from the Rust serde definitions).
+Part 1 (this file): `ser(parse(ser d)) = ser d` for every document of the generated schema
+`C11.Generated.defs` (translator T1 regenerates it from the Rust serde definitions); the generic codec
+theorems are in `VrpProofs/C11/{Codec,Safe,WF}.lean`.
+Part 2 (`VrpProofs/C11/Init.lean`): `C11.Init.init_roundtrip_partial` (with `matchAct_customer`,
+`view_written`, `readActs_ok`, `readTours_ok`).
+Part 3 (`VrpProofs/C11/Csv.lean`): `C11.Csv.csv_import_valid_partial`, `C11.Csv.csv_import_carries_data`.
 -/
 namespace C11
 
